@@ -31,12 +31,86 @@ def single_slot(tier):
     return cases
 
 
+RAW = ("script", "style")
+
+
+def raw_text_slots(tier):
+    """the same strings, and end-tag look-alikes, as the text of script / style elements (raw-text elements in HTML, ordinary
+    elements under svg): the renderer must escape there as everywhere else"""
+    alpha = ["<", ">", "&", "/", "-", "!", "s", " "]
+    strings = ["".join(t) for n in range(3 if tier == "quick" else 4) for t in itertools.product(alpha, repeat=n)]
+    strings += ["</script>", "</style>", "</SCRIPT >", "</script/", "</style\n>", "</scriptx", "<g>", "&amp;", "&lt;/script&gt;", "<!--", "-->", "<!-- </script> -->",
+                "var s = \"</script><img src=x onerror=alert(1)>\";", "ul > li && x {}", "a{}</style><p>x</p>", "]]>"]
+    cases = []
+    for s in strings:
+        st = {"s": {0: s}, "b": {0: True}, "l": {}}
+        for tag in RAW:
+            cases.append(("slot:rawtext", st, ("el", tag, [], [("text", s)])))
+            cases.append(("slot:rawtext", st, ("el", "div", [], [("el", tag, [], [("dyntext", 0)]), ("el", "p", [], [])])))
+            cases.append(("slot:rawtext", st, ("el", "svg", [], [("el", tag, [], [("text", s)])])))
+            cases.append(("slot:rawtext", st, ("el", tag, [("a", "type", s)], [("dyn", 0, [("text", s)], [])])))
+    return cases
+
+
+def with_raw(v, rng):
+    """rename some elements of a random view to script / style"""
+    if v[0] == "el":
+        tag = rng.choice(RAW) if v[1] not in viewgen.VOID and rng.random() < 0.3 else v[1]
+        return ("el", tag, v[2], [with_raw(c, rng) for c in v[3]])
+    if v[0] in ("frag", "comp", "nohydrate", "nossr"):
+        return (v[0], [with_raw(c, rng) for c in v[1]])
+    if v[0] == "dyn":
+        return ("dyn", v[1], [with_raw(c, rng) for c in v[2]], [with_raw(c, rng) for c in v[3]])
+    if v[0] == "show":
+        return ("show", v[1], [with_raw(c, rng) for c in v[2]])
+    if v[0] == "list":
+        return v[:3] + ([with_raw(c, rng) for c in v[3]],)
+    return v
+
+
 def gen(tier, rng):
-    cases = single_slot(tier)
+    cases = single_slot(tier) + raw_text_slots(tier)
     for i in range(1500 if tier == "quick" else 15000):
         st, v = viewgen.random_view(rng, rng.choice([2, 3, 4]))
-        cases.append(("random", st, v))
+        if i % 8 == 7:
+            cases.append(("random:rawtext", st, with_raw(v, rng)))
+        else:
+            cases.append(("random", st, v))
     return cases
+
+
+def browser_tags(html):
+    """the start / end tag sequence of `html` as a browser's tokenizer sees it, i.e. with script and style outside svg read as raw
+    text up to their end-tag look-alike; used only to rank failures (a replay that a browser confirms comes first)"""
+    import re
+    out, i, svg = [], 0, 0
+    while i < len(html):
+        if html.startswith("<!--", i):
+            if html.startswith("<!-->", i):
+                i += 5
+                continue
+            j = html.find("-->", i + 4)
+            i = len(html) if j < 0 else j + 3
+            continue
+        m = re.compile(r"</([a-zA-Z][^\s/>]*)[^>]*>").match(html, i)
+        if m:
+            t = m.group(1).lower()
+            out.append(("E", t))
+            svg -= (t == "svg")
+            i = m.end()
+            continue
+        m = re.compile(r'<([a-zA-Z][^\s/>]*)((?:[^>"]|"[^"]*")*)>').match(html, i)
+        if m:
+            t = m.group(1).lower()
+            out.append(("S", t))
+            svg += (t == "svg")
+            i = m.end()
+            if t in RAW and svg <= 0:
+                e = re.compile(r"</%s[\t\n\f\r />]" % t, re.I).search(html, i)
+                i = len(html) if e is None else e.start()
+            continue
+        i += 1
+    return out
 
 
 def strip_hk(toks):
@@ -57,10 +131,11 @@ def main(argv):
                    "the tokenizer of Ssr/Html.v as the reading of the HTML standard for the subset the renderer emits (data state, tags, double-quoted attributes, comments incl. <!-->, the four references)",
                    "harness/ssr-driver + harness/common/viewspec.rs (view vocabulary over the real builder API)", "tools/viewgen.py, tools/c08.py",
                    "modelled, not verified: html-escape (from its tables, compared on every run), Cow/Arc<Mutex<_>> plumbing"]
-    chk.assumptions = ["raw-text / escapable-raw-text elements (script, style, textarea, title), inner_html, duplicate attribute names, CR and NUL in strings, "
+    chk.assumptions = ["script and style are generated and read like every other element (the property's reading: entities are decoded everywhere; a browser does not decode them "
+                       "inside HTML script / style, which the uniform escaping of the renderer does not account for); textarea / title, inner_html, duplicate attribute names, CR and NUL in strings, "
                        "and the tree-construction fix-ups of a full HTML parser are outside the vocabulary"]
     chk.rule = ("single-slot views: every string of length <= 2 (quick) / 3 (thorough) over the metacharacter alphabet plus comment / CDATA / entity "
-                "look-alikes in a text, dynamic text, attribute and dynamic attribute slot; random view trees of depth <= 4 over elements (HTML, SVG, "
+                "look-alikes in a text, dynamic text, attribute and dynamic attribute slot; the same and end-tag look-alikes as the text of script / style elements (HTML and under svg); random view trees of depth <= 4 over elements (HTML, SVG, "
                 "custom, void), static and dynamic text, dynamic views, Show, Keyed/Indexed, components, NoHydrate/NoSsr, static/dynamic/None and boolean "
                 "attributes; non-trivial = the output contains an escaped metacharacter or a marker comment; distinct = distinct (state, view)")
     ok, msg = vlib.proof_step(chk, "C08", ["theories/Props/C08.vo", "theories/Ssr/Show.vo"], THEOREMS)
@@ -109,7 +184,7 @@ def main(argv):
         chk.note_case(key, any(x in raw for x in (b"&amp;", b"&lt;", b"&gt;", b"&quot;", b"<!--")))
         dist[tag] = dist.get(tag, 0) + 1
         if out_hex == "PANIC":
-            orfail.append({"what": "render_to_string panicked", "view": viewgen.sx_view(v), "state": viewgen.sx_state(st)})
+            orfail.append({"case": i, "what": "render_to_string panicked", "view": viewgen.sx_view(v), "state": viewgen.sx_state(st)})
             continue
         if model is not None and model[i] != out_hex:
             mism.append({"view": viewgen.sx_view(v), "state": viewgen.sx_state(st), "impl": raw.decode("utf8", "replace"),
@@ -118,10 +193,10 @@ def main(argv):
             exp = viewgen.norm_tokens(viewgen.expected_tokens(v, st))
             got = viewgen.parse_coq_tokens(parsed[i])
             if got is None:
-                orfail.append({"what": "output is not parseable by the HTML tokenizer", "view": viewgen.sx_view(v), "state": viewgen.sx_state(st),
+                orfail.append({"case": i, "what": "output is not parseable by the HTML tokenizer", "view": viewgen.sx_view(v), "state": viewgen.sx_state(st),
                                "output": raw.decode("utf8", "replace")})
             elif viewgen.norm_tokens(strip_hk(got)) != exp:
-                orfail.append({"what": "output does not parse back to the view that was built", "view": viewgen.sx_view(v),
+                orfail.append({"case": i, "what": "output does not parse back to the view that was built", "view": viewgen.sx_view(v),
                                "state": viewgen.sx_state(st), "output": raw.decode("utf8", "replace"),
                                "parsed": str(viewgen.norm_tokens(strip_hk(got)))[:600], "expected": str(exp)[:600]})
     chk.traces = len(cases) if model is not None else 0
@@ -131,7 +206,18 @@ def main(argv):
     for i in (0, len(cases) // 2, len(cases) - 1):
         chk.sample({"view": viewgen.sx_view(cases[i][2]), "output": bytes.fromhex(impl[i]).decode("utf8", "replace") if impl[i] != "PANIC" else "PANIC"})
     if orfail:
-        orfail.sort(key=lambda o: len(str(o)))
+        # failures that a browser's tokenizer (raw-text aware) confirms as a change of the element tree come first
+        def confirmed(o):
+            i = o.get("case")
+            if i is None or impl[i] == "PANIC":
+                return False
+            exp = [(t[0], t[1]) for t in viewgen.expected_tokens(cases[i][2], cases[i][1]) if t[0] in "SE"]
+            return browser_tags(bytes.fromhex(impl[i]).decode("utf8", "replace")) != exp
+        for o in orfail:
+            o["browser_confirms_tree_change"] = confirmed(o)
+        orfail.sort(key=lambda o: (not o["browser_confirms_tree_change"], len(str(o))))
+        for o in orfail:
+            o.pop("case", None)
         chk.violation({"property": PID, "kind": "oracle failure on implementation output", "input": orfail[0], "count": len(orfail), "also_broken": broken})
     elif mism or broken:
         chk.violation({"property": PID, "kind": "proof/correspondence broken, oracle clean on all inputs explored", "broken": broken,
